@@ -841,7 +841,9 @@ fn check_history(prog: &Program, all: &[Rec], viol: &mut Vec<Violation>) {
                     matches!(i.op, TOp::Ins(k2, _) if k2 == k)
                         && shortest.map(|d| r.completed && r.t1 < i.t0 + d).unwrap_or(true)
                         && after(r, i)
-                        && all.iter().all(|x| std::ptr::eq(x, *i) || !(x.op.writes_key() == Some(k) || matches!(x.op, TOp::InvAll)) || after(i, x))
+                        // (another insert of the key never makes it absent: only an
+                        // invalidation that had not returned before this insert began can)
+                        && all.iter().all(|x| std::ptr::eq(x, *i) || !(matches!(x.op, TOp::Inv(k2) if k2 == k) || matches!(x.op, TOp::InvAll)) || after(i, x))
                 });
                 if settled {
                     let d = format!("T{}#{} {} found nothing although an insert of key {k} had completed before it began and nothing was written to the key or invalidated afterwards", r.thread, r.idx, r.op.text());
@@ -1708,6 +1710,30 @@ pub fn family(name: &str, tier: &str) -> Vec<Program> {
                         c.weigher = true;
                         c.alpha = "fine".into();
                         out.push(Program { cfg: c, prefix: pre.clone(), threads: vec![t1.clone(), vec![TOp::Sync]] });
+                    }
+                }
+            }
+        }
+        // lookups beside a map write in progress (hook a7c7ad2: with the fine-grained
+        // points on, a thread can be parked *inside* a write operation of the map; the
+        // map's non-blocking operations find the shard locked then, blocking ones simply
+        // run before the write): a resident key must be found whatever another thread
+        // is writing - the same key, another key, an invalidation of another key, a pass
+        "inwrite" => {
+            let preludes: Vec<Vec<Op>> = vec![vec![Op::Ins(0, 1), Op::Sync], vec![Op::Ins(0, 1)], vec![Op::Ins(0, 1), Op::Ins(1, 1), Op::Sync, Op::Get(0)]];
+            let readers: Vec<Vec<TOp>> = vec![vec![TOp::Con(0)], vec![TOp::Get(0)], vec![TOp::Con(0), TOp::Get(0)], vec![TOp::Iter]];
+            let writers: Vec<Vec<TOp>> = vec![vec![TOp::Ins(1, 1)], vec![TOp::Ins(0, 2)], vec![TOp::Inv(1)], vec![TOp::Ins(1, 1), TOp::Inv(1)], vec![TOp::Ins(2, 1), TOp::Sync], vec![TOp::Sync]];
+            for (cap, ttl, tti) in [(None, None, None), (Some(8u64), None, None), (None, Some(4u32), None), (None, None, Some(4u32))] {
+                for pre in &preludes {
+                    for rd in &readers {
+                        for wr in &writers {
+                            let mut c = base(cap, tti);
+                            c.ttl = ttl;
+                            c.weigher = true;
+                            c.alpha = "fine".into();
+                            c.nkeys = 3;
+                            out.push(Program { cfg: c, prefix: pre.clone(), threads: vec![rd.clone(), wr.clone()] });
+                        }
                     }
                 }
             }
